@@ -108,3 +108,23 @@ def forwards_equivalence(repo: Repo):
                     ok = False
                     found = "converted array not stripped with .value"
         yield (f"thread:{caller}->{callee}", ok, fn.where(), f"{caller} must forward (units, equivalence, **kwargs) to {callee}: expected {want}, found {found}")
+
+
+def unit_operators_returning_operand(repo: Repo):
+    """(method FuncInfo, [return statements that hand back self / a parameter]) for the Unit operators whose
+    results the library passes to the in-place simplify()."""
+    from engine.core import walk_no_nested
+
+    uo = repo.mod(UO)
+    for meth in ("Unit.__mul__", "Unit.__truediv__", "Unit.__pow__", "Unit.__rmul__", "Unit.__rtruediv__"):
+        mf = uo.func(meth)
+        shared = []
+        names = {"self"} | set(mf.params)
+        for n in walk_no_nested(mf.node):
+            if isinstance(n, ast.Return) and n.value is not None:
+                v = n.value
+                if isinstance(v, ast.Name) and v.id in names:
+                    shared.append(norm(n))
+                elif isinstance(v, ast.IfExp) and any(isinstance(x, ast.Name) and x.id in names for x in (v.body, v.orelse)):
+                    shared.append(norm(n))
+        yield mf, shared
